@@ -190,6 +190,17 @@ static const char *const T_C04[] = {
 };
 QP_HARNESS(h_q04, "q04", "C04", T_C04, 0);
 
+// C04, three client threads (kept apart from q04 because one preemption already costs ~10^6 schedules):
+// a sync reader that lost the fast path (a barrier was queued) and pushes its waiter only after the queue has drained and gone
+// idle again, with a fast-path reader already inside: the width that reader holds must survive the waiter's self-redrive
+static const char *const T_C04X[] = {
+	"C0 | b0 | s0 b0 | h0",
+	"N0 | b0 | s0 b0 | h0",
+	"C0 | b0 | w0 b0 | h0",
+	0
+};
+QP_HARNESS(h_q04x, "q04x", "C04", T_C04X, 0);
+
 // C05: every synchronous edge, contended so that the slow paths (waiter hand-off, redirect) are taken
 static const char *const T_C05[] = {
 	"S0 | a0 s0 | a0",
